@@ -12,6 +12,8 @@ package limitlistener
 //	close k    server-side Close of the k-th accepted connection (closing twice is allowed:
 //	           release once)
 //	set n      SetMaxConnection(n) (grow, shrink below usage, repeated)
+//	half k     the client of the k-th accepted connection half-closes (CloseWrite); the server side reads
+//	           to EOF and keeps the connection open (it still counts: released only by Close)
 //
 // Operations marked "race" are followed by the next one at once; otherwise the
 // harness waits until the acceptor and every SetMaxCount goroutine is parked
@@ -248,6 +250,7 @@ func c17lExec(raw json.RawMessage) interface{} {
 	}
 	bigSeen := false
 	lastSet := in.Cap0
+	halfClosed := map[int]bool{}
 	for i, op := range in.Ops {
 		switch op.Op {
 		case "dial":
@@ -275,6 +278,31 @@ func c17lExec(raw json.RawMessage) interface{} {
 			} else {
 				c.Close()
 			}
+		case "half":
+			// the client shuts down its sending side; the server side (a handler that is still busy with the
+			// connection) reads until EOF. The connection stays open on the server side: it counts until Close.
+			st.mu.Lock()
+			var sc net.Conn
+			if op.K >= 0 && op.K < len(st.accepted) && !st.closed[op.K] {
+				sc = st.accepted[op.K]
+			}
+			st.mu.Unlock()
+			if sc == nil || op.K >= len(clients) {
+				skipped = append(skipped, i)
+				break
+			}
+			if tc, ok := clients[op.K].(*net.TCPConn); ok {
+				tc.CloseWrite()
+			}
+			halfClosed[op.K] = true
+			sc.SetReadDeadline(time.Now().Add(40 * time.Second))
+			rb := make([]byte, 16)
+			for {
+				if _, err := sc.Read(rb); err != nil {
+					break
+				}
+			}
+			sc.SetReadDeadline(time.Time{})
 		case "set":
 			// capacities near maxCapacity: only between settled, quiet snapshots, and only shrinks afterwards
 			// (a grow next to a pending / parked shrink would make Weighted.Release panic, see the sem harness)
@@ -318,6 +346,18 @@ func c17lExec(raw json.RawMessage) interface{} {
 	st.mu.Unlock()
 	for i, sc := range acc {
 		if closed[i] || i >= len(clients) {
+			continue
+		}
+		if halfClosed[i] {
+			// half-closed by the client: the other direction must still work
+			if _, err := sc.Write([]byte{byte(i)}); err != nil {
+				continue
+			}
+			b := make([]byte, 1)
+			clients[i].SetReadDeadline(time.Now().Add(40 * time.Second))
+			if n, _ := clients[i].Read(b); n == 1 && b[0] == byte(i) {
+				obs.Alive++
+			}
 			continue
 		}
 		if _, err := clients[i].Write([]byte{byte(i)}); err != nil {
@@ -410,10 +450,15 @@ func c17lGen(r *verifh.Rand, i int) interface{} {
 	raceBias := r.PickInt(0, 0, 2, 5)
 	for len(in.Ops) < n {
 		var op c17lOp
-		switch r.Intn(10) {
+		switch r.Intn(11) {
 		case 0, 1, 2, 3:
 			op = c17lOp{Op: "dial"}
 			dials++
+		case 10:
+			if dials == 0 {
+				continue
+			}
+			op = c17lOp{Op: "half", K: r.Intn(dials)} // the client half-closes; may hit a not yet accepted / closed index (skipped)
 		case 4, 5, 6:
 			if dials == 0 {
 				continue
@@ -433,7 +478,7 @@ func c17lGen(r *verifh.Rand, i int) interface{} {
 		if k := len(in.Ops); k >= 3 && in.Ops[k-1].Race && in.Ops[k-2].Race && in.Ops[k-3].Race {
 			op.Race = false // at most four operations race at a time (the judge explores every order)
 		}
-		if op.Op == "close" && len(in.Ops) > 0 {
+		if (op.Op == "close" || op.Op == "half") && len(in.Ops) > 0 {
 			// whether its target exists must not depend on a race
 			in.Ops[len(in.Ops)-1].Race = false
 		}
